@@ -43,6 +43,9 @@ TEMPLATES = [
     ('insert-select', 'INSERT INTO int1.t1 (a, b) SELECT x, {P} FROM int1.t2 WHERE y = {P}'),
     ('update', 'UPDATE int1.t1 SET a = {P}, b = {P} WHERE c = {P}'),
     ('update-expr', 'UPDATE int1.t1 SET a = a + {P}, b = f({P}) WHERE c = {P} AND d IN ({P}, {P})'),
+    ('update-unsorted', 'UPDATE int1.t1 SET c = {P}, a = {P}, b = {P}, Z = {P}, aa = {P} WHERE d = {P}'),
+    ('insert-unsorted', 'INSERT INTO int1.t1 (c, a, b) VALUES ({P}, {P}, {P})'),
+    ('select-unsorted', 'SELECT {P} AS z, {P} AS a, {P} AS m FROM int1.t1 WHERE y = {P} AND b = {P} ORDER BY z'),
     ('delete', 'DELETE FROM int1.t1 WHERE a = {P} AND b > {P}'),
     ('union', 'SELECT a FROM int1.t1 WHERE b = {P} UNION SELECT a FROM int1.t2 WHERE c = {P}'),
     ('union-2int', 'SELECT a FROM int1.t1 WHERE b = {P} UNION ALL SELECT a FROM int2.t2 WHERE c = {P}'),
@@ -59,7 +62,7 @@ COLS = [{'name': n, 'type': 'int'} for n in ('id', 'a', 'b', 'c', 'd', 'e', 'x',
 
 
 def floors(tier):
-    return {'histories_checked': 800, 'len:templates': 27, 'wrong_count_calls': 150, 'fill_checks': 400}
+    return {'histories_checked': 800, 'len:templates': 30, 'wrong_count_calls': 150, 'fill_checks': 400}
 
 
 def instantiate(tmpl, mixed=False):
